@@ -15,7 +15,8 @@ RULE = (
     "Source repositories are built by running 1-3 generated programs (C01 grammar with failures, "
     "duplicates, apply_tags, File results nested in lists, partial-task values) under the harness "
     "executor, followed by a generated history of tag add/update/rm operations (as the CLI issues "
-    "them) on executions, jobs and values. A generated root selection (all executions or a subset of "
+    "them) on executions, jobs and values; with a pre-sync the history is split around a first "
+    "transfer, so that the later transfer carries only newer edits of tags the destination already holds. A generated root selection (all executions or a subset of "
     "one or two) is transferred into an empty or a previously synced repository by push/pull "
     "(RedunClient._sync_records) or by export -> JSON lines -> import, once or twice, and back. "
     "Oracle over the primary-key-normalised dumps of Execution, Job, CallNode, CallEdge, Argument, "
@@ -206,21 +207,27 @@ def oracle(ctx: Ctx, case):
             schedrun.run_program(prog, decisions=[], backend=src)
         s = src.session
         s.expire_all()
-        exec_ids = [e.id for e in s.query(Execution).order_by(Execution.id).all()]
+        # deterministic order (ids are random uuids): executions and jobs by start time
+        jobs = s.query(Job).order_by(Job.start_time, Job.task_hash).all()
+        start = {j.id: (j.start_time, n) for n, j in enumerate(jobs)}
+        exec_ids = [e.id for e in sorted(s.query(Execution).all(), key=lambda e: start.get(e.job_id, (None, 1 << 30))[1])]
         info["execs"] = len(exec_ids)
-        jobs = s.query(Job).order_by(Job.id).all()
         ents = []
         for e in exec_ids[:2]:
             ents.append((TagEntity.Execution, e))
         for j in jobs[:2]:
             ents.append((TagEntity.Job, j.id))
-        for v in s.query(Value).order_by(Value.value_hash).limit(2).all():
+        # (builtin values only: the hash of a File value contains an mtime, so its place in the
+        # hash order would differ from one evaluation of the case to the next)
+        for v in s.query(Value).filter(Value.type.like("builtins.%")).order_by(Value.value_hash).limit(2).all():
             ents.append((TagEntity.Value, v.value_hash))
-        if case["presync"] and exec_ids:
-            do_transfer(case["route"], src, dst, exec_ids[:1])
-        for op, ei, key, val in case["tagops"]:
-            if not ents:
-                break
+        def apply_tagops(ops):
+            for op, ei, key, val in ops:
+                if not ents:
+                    break
+                tag_op(op, ei, key, val)
+
+        def tag_op(op, ei, key, val):
             et, eid = ents[ei % len(ents)]
             if op == "add":
                 src.record_tags(et, eid, [(key, val)], new=True)
@@ -230,9 +237,25 @@ def oracle(ctx: Ctx, case):
                 src.delete_tags(eid, [(key, val)])
             else:
                 src.delete_tags(eid, [], keys=[key])
+
+        # with a pre-sync, part of the tag history is transferred first (all executions, so that
+        # the tagged entities travel too) and the tags are then edited further in the source: the
+        # second transfer carries only the newer edits and must supersede what is already there
+        ops = case["tagops"]
+        if case["presync"] and exec_ids:
+            half = len(ops) // 2
+            apply_tagops(ops[:half])
+            do_transfer(case["route"], src, dst, exec_ids if len(ops) % 2 else exec_ids[:1])
+            apply_tagops(ops[half:])
+        else:
+            apply_tagops(ops)
         before = full_dump(src)
         info["edits"] = len(before["tag_edit"])
-        if case["roots"] == "all" or not exec_ids:
+        split = bool(case["presync"] and exec_ids and len(ops) // 2 > 0)
+        # (after a split history the final transfer covers all executions: a destination that
+        # received a tag earlier legitimately keeps its old status if the entity's execution is
+        # not part of the later transfer)
+        if case["roots"] == "all" or not exec_ids or split:
             root_ids = exec_ids
             roots_arg = None if case["root_pick"] % 2 else exec_ids
         elif case["roots"] == "subset":
@@ -267,7 +290,7 @@ def oracle(ctx: Ctx, case):
             if missing:
                 raise Violation(f"missing-rows:{t}", f"{len(missing)} {t} rows reachable from the roots were not transferred, e.g. {missing[:2]}", case)
         # (4) all roots: equal dumps
-        if case["roots"] == "all":
+        if case["roots"] == "all" or split:
             # (values that only the single-reduction cache — the Evaluation table — refers to are
             # not part of the call graph and are not transferred; value tables are covered by (3))
             for t in ("execution", "job", "call_node", "call_edge", "argument", "argument_result"):
@@ -282,7 +305,7 @@ def oracle(ctx: Ctx, case):
                 raise Violation("repeat-adds", f"repeating the transfer reported {n2} new records", case)
             if full_dump(dst) != d:
                 raise Violation("repeat-changes", "repeating the transfer changed the destination", case)
-            if case["roots"] == "all":
+            if case["roots"] == "all" or split:
                 n3 = do_transfer(case["route"], dst, src, None)
                 if n3 != 0 or full_dump(src) != before:
                     raise Violation("roundtrip-changes-source", f"transferring back reported {n3} new records / changed the source", case)
